@@ -91,11 +91,26 @@ type VHist struct {
 	Tag     string
 	M       *model.World
 	LastAck string // extra data the crash child appends to the acknowledgement line of the last op
+	Ctx0    *Store // a contextual store created when the history began (re-created after a restart)
+}
+
+// storeVia returns the store a transaction goes through.
+func (h *VHist) storeVia(via string) *Store {
+	switch via {
+	case "ctx":
+		return NewContextualStore(h.W.Store)
+	case "ctx0":
+		if h.Ctx0 == nil || h.Ctx0.database != h.W.Store.database {
+			h.Ctx0 = NewContextualStore(h.W.Store)
+		}
+		return h.Ctx0
+	}
+	return h.W.Store
 }
 
 func (w *VWorld) NewHist() *VHist {
 	w.Hists++
-	return &VHist{W: w, Tag: fmt.Sprintf("%d", w.Hists), M: model.NewWorld()}
+	return &VHist{W: w, Tag: fmt.Sprintf("%d", w.Hists), M: model.NewWorld(), Ctx0: NewContextualStore(w.Store)}
 }
 
 // name mapping ---------------------------------------------------------
@@ -221,6 +236,9 @@ type VOp struct {
 	L     int               `json:"l,omitempty"` // limit
 	LO    bool              `json:"lo,omitempty"`
 	N     int               `json:"n,omitempty"`
+	// Via: "" = the store; "ctx" = a contextual store created for this operation; "ctx0" = the contextual store created
+	// when the history began (what a job with a javascript transform holds: transactions from ExecuteTransaction())
+	Via string `json:"via,omitempty"`
 }
 
 // allEnts: the entities of a batch op; N > 0 adds N generated entities g1..gN (a large batch).
@@ -290,7 +308,7 @@ func (h *VHist) ApplyWrite(op VOp) error {
 			t.DatasetEntities[h.DsName(n)] = es
 			mp[n] = ms
 		}
-		if err := h.W.Store.ExecuteTransaction(t); err != nil {
+		if err := h.storeVia(op.Via).ExecuteTransaction(t); err != nil {
 			return err
 		}
 		_ = h.M.Txn(mp)
